@@ -91,7 +91,7 @@ Theorem space_straddler s d mode i :
   space1 s d mode i =
   match mode with
   | SStretch => [mkI (istart i) (iend i + d) (ilabel i)]
-  | SSplit => [mkI (istart i) s (ilabel i); mkI (s + d) (s + d + (iend i - s)) (ilabel i)]
+  | SSplit => [mkI (istart i) s (ilabel i); mkI (s + d) (iend i + d) (ilabel i)]
   | SNoChange => [i]
   | SError => []
   end.
